@@ -470,7 +470,7 @@ def flush_model(ctx, rule):
     # aback: `a` is assigned the value it held before the batch again (each of the two assignments is a change)
     event_seqs = [["a1"], ["a1", "b1"], ["a1", "b1", "a2"], ["b1", "a1"], ["a1", "a2"], ["a1", "a0", "b1"], ["a0", "b1"], ["a1", "aback"], ["a1", "b1", "aback"],
                   ["a1", "A1"], ["A1", "a1"], ["A1", "a1", "A2"], ["A1"]]
-    n, bad = 0, []
+    n, bad, badflag = 0, [], []
     for evnames in event_seqs:
         for r in (1, 2, 3):
             for order in itertools.permutations(["w1", "w2", "w3", "w4", "w5", "w6"] if any(e[0] == "A" for e in evnames) else ["w1", "w2", "w3", "w4", "w5"], r):
@@ -490,16 +490,20 @@ def flush_model(ctx, rule):
                 # the queued watchers are no longer registered anywhere (e.g. a relink rebuilt the source watchers after
                 # the event was queued): what was queued for an event that happened is delivered all the same
                 pnames = {k: Obj("P_" + k, watchers={}) for k in ("a", "b", "c")}
-                ns = Obj("ns", _events=list(events), _state_watchers=[ws[k] for k in order], _TRIGGER=False, self_or_cls=Obj("owner"),
+                ns = Obj("ns", _events=list(events), _state_watchers=[ws[k] for k in order], _TRIGGER=False, _BATCH_WATCH=False, self_or_cls=Obj("owner"),
                          self=None, __getitem__=pnames, __contains__=list(pnames))
                 ns.attrs["cls"] = Obj("Cls", param=ns)
                 runs = []
                 cascade = {"done": False}
+                scope = {"enable": None}
+                flags = []
 
                 def hook(fn, args, kwargs):
                     if fn.endswith("._update_event_type"):
                         return args[1]
                     if fn == "_batch_call_watchers":
+                        # the per-watcher scope: batching is on inside it iff `enable` (it covers the execution that follows)
+                        scope["enable"] = kwargs.get("enable", args[1] if len(args) > 1 else True)
                         return Obj("scope")
                     if fn.endswith("._changed") and len(args) == 1 and isinstance(args[0], Obj):
                         return args[0].attrs.get("old") is not args[0].attrs.get("new")
@@ -510,6 +514,8 @@ def flush_model(ctx, rule):
                         if not (len(args) == 2 and isinstance(args[0], Obj) and isinstance(args[1], (list, tuple)) and all(isinstance(e, Obj) for e in args[1])):
                             raise AnalysisError("flush model: _execute_watcher is called with arguments the model cannot follow (%r)" % (args,))
                         runs.append((args[0].name, [(e.attrs.get("name"), e.attrs.get("new")) for e in args[1]]))
+                        flags.append((args[0].name, bool(ns.attrs.get("_BATCH_WATCH")) or scope["enable"] is True, bool(args[0].attrs.get("queued"))))
+                        scope["enable"] = None
                         # a queued watcher assigns `c` while it runs: raised once
                         if args[0].name == "w3" and not cascade["done"]:
                             cascade["done"] = True
@@ -539,7 +545,17 @@ def flush_model(ctx, rule):
                 leftover = len(ns.attrs["_events"]) + len(ns.attrs["_state_watchers"])
                 if runs != expect or leftover:
                     bad.append((list(order), evnames, runs, expect, leftover))
+                wrong_flag = [(k, on) for k, on, queued in flags if on != queued]
+                if wrong_flag or ns.attrs.get("_BATCH_WATCH") is not False:
+                    badflag.append((list(order), evnames, wrong_flag, ns.attrs.get("_BATCH_WATCH")))
     ctx.abstract_cases += n
+    if badflag and not bad:
+        order, evnames, wrong, after = badflag[0]
+        ctx.fail(rule, fl, fl.node, "flush model: with queued watchers %s (w3 is a queued=True watcher) and queued events %s, %s; specification: batching is on while a queued=True watcher runs, off while "
+                                    "any other watcher runs (what it assigns, and a batch or update it opens itself, is delivered before it returns) and off after the flush" % (
+                                        order, evnames, "; ".join("%s runs with batching %s" % (k, "on" if on else "off") for k, on in wrong) or "the batching flag is %r after the flush" % (after,)),
+                 key=fl.qualname + "::flush-model-batching-flag", input="a queued=True watcher and a plain watcher of lower priority in one flush: the plain watcher's own `with batch_call_watchers(...)` does not deliver at its exit")
+        return
     if bad:
         order, evnames, runs, expect, leftover = bad[0]
         ctx.fail(rule, fl, fl.node, "flush model: with queued watchers %s (w2 has precedence -1, w4 +1) and queued events %s the flush runs %s, specification %s%s" % (
@@ -1423,3 +1439,58 @@ def no_shared_mutable_class_state(ctx, rule):
     ctx.require(n >= 40, "fewer than 40 classes examined (%d)" % n)
     pf = ctx.repo.func("param.parameters.Time.__init__")
     ctx.ok(rule, pf, None, "no class binds a mutable container at class level that its methods mutate through self (%d classes)" % n)
+
+
+def fresh_private_state(ctx, rule):
+    """_ClassPrivate.__init__ and _InstancePrivate.__init__ interpreted TWICE in one interpreter (module-level objects are
+    evaluated once and shared, as at run time) with their default arguments: no mutable container stored on one private
+    namespace -- the dispatch state dict, its event / watcher queues, the value store, the watcher table ... -- is the
+    object stored on the other one, at any depth.  (A shallow copy of a module-level template shares the queue lists:
+    events queued for one class are delivered by the flush of another.)"""
+    from engine.absint import Interp, Obj, Unsupported
+    from engine.loader import AnalysisError
+    n, bad = 0, []
+    for q in ("_ClassPrivate", "_InstancePrivate"):
+        f = ctx.repo.func(P + q + ".__init__")
+        it = Interp(ctx.hier, inline_module_functions=True)
+        selves = []
+        for k in (1, 2):
+            me = Obj("private_namespace_%d" % k)
+            env = {f.params[0]: me}
+            try:
+                outs = it.run_all(f, env)
+            except Unsupported as e:
+                raise AnalysisError("%s: absint cannot interpret %s.__init__: %s" % (rule, q, e))
+            if len(outs) != 1 or outs[0].imprecise or outs[0].kind != "return":
+                raise AnalysisError("%s: %s.__init__ is not interpretable precisely (%s)" % (rule, q, outs[0].notes[:2] if outs else "no outcome"))
+            selves.append(me)
+            n += 1
+
+        def containers(v, path, out, depth=0):
+            if isinstance(v, (list, dict, set)) and depth < 4:
+                out.append((path, v))
+                items = v.items() if isinstance(v, dict) else enumerate(v) if isinstance(v, list) else []
+                for k, x in items:
+                    containers(x, "%s[%r]" % (path, k), out, depth + 1)
+        c1, c2 = [], []
+        for k, v in selves[0].attrs.items():
+            containers(v, k, c1)
+        for k, v in selves[1].attrs.items():
+            containers(v, k, c2)
+        if not any(p.startswith("parameters_state") for p, _ in c1):
+            raise AnalysisError("%s: %s.__init__ no longer stores a dispatch state the model can see" % (rule, q))
+        for p1, v1 in c1:
+            for p2, v2 in c2:
+                if v1 is v2:
+                    bad.append((q, p1, p2))
+    ctx.abstract_cases += n
+    f = ctx.repo.func(P + "_ClassPrivate.__init__")
+    if bad:
+        q, p1, p2 = bad[0]
+        g = ctx.repo.func(P + q + ".__init__")
+        ctx.fail(rule, g, g.node, "two %s namespaces built with the default arguments share the container `%s` (one object): %s" % (
+            q, p1, "events and watchers queued for one class are delivered -- again, and with stale events -- by the first flush of another class" if "parameters_state" in p1
+            else "what one object stores there shows up on the other"), key="%s::shared-default-state::%s" % (g.qualname, p1.split("[")[0]),
+            input="a queued class-level watcher on Source.x assigns Source.y; later Other.z = 5 -> the watcher of Source.y runs a second time with the stale event")
+    else:
+        ctx.ok(rule, f, f.node, "_ClassPrivate / _InstancePrivate built twice with the defaults: no container (dispatch state, queues, stores, tables) is shared between two namespaces")
